@@ -89,6 +89,18 @@ def gen_case(rng, tier, idx):
             cfg[g]["assetVolume"] = rng.choice([[10, 100], {"uniform": [20, 80]}, {"expon": [40]}])
         if rng.random() < 0.5:
             cfg[g]["cashAmount"] = rng.choice([[5000, 50000], {"normal": [20000, 100]}])
+    if rng.random() < 0.35:
+        # two-element ranges written with the larger bound first (same support, valid input)
+        def flip(v):
+            if isinstance(v, list) and len(v) == 2:
+                return [v[1], v[0]]
+            if isinstance(v, dict) and "uniform" in v:
+                return {"uniform": [v["uniform"][1], v["uniform"][0]]}
+            return v
+        for g in ("FCNBase", "FCNNormal", "Arb", "Tester", "Script", "Maker"):
+            for key in ("timeWindowSize", "orderMargin", "assetVolume", "cashAmount"):
+                if key in cfg[g] and rng.random() < 0.7:
+                    cfg[g][key] = flip(cfg[g][key])
     if rng.random() < 0.5:
         cfg["Script"]["markets"] = ["Index", "Spot"]
     if rng.random() < 0.5:
